@@ -94,13 +94,12 @@ impl TimeWindow {
 
         self.events.push_back(event);
 
-        while self
-            .events
-            .front()
-            .is_some_and(|e| e.metadata.timestamp < self.start_time)
-        {
-            self.events.pop_front();
-        }
+        // Arrival order is not timestamp order (late events), so a stale event can sit
+        // behind a fresh one: drop every event older than the trailing boundary, not
+        // just a stale prefix.
+        let start_time = self.start_time;
+        self.events
+            .retain(|e| e.metadata.timestamp >= start_time);
         while self.events.len() > self.max_events {
             self.events.pop_front();
         }
